@@ -73,6 +73,7 @@ class Online:
     self.vcounts = {}
     self.lock = threading.Lock()
     self.frames = {}          # id(frame) -> record  (entries removed at exit)
+    self.cm_locked = {}       # id(context manager object) -> lock state at its __enter__ (class-based unlock_config)
     self.codes = {}
     self.installed = False
     self.pristine = None
@@ -114,9 +115,17 @@ class Online:
       C['config_scope'] = getattr(gc.config_scope, '__wrapped__', gc.config_scope).__code__
       want[C['config_scope']] = E.PY_START | E.PY_RETURN
     if 'lock' in self.which:
-      C['unlock_config'] = getattr(gc.unlock_config, '__wrapped__', gc.unlock_config).__code__
+      uc = getattr(gc.unlock_config, '__wrapped__', gc.unlock_config)
+      if hasattr(uc, '__code__'):
+        C['unlock_config'] = uc.__code__
+        want[C['unlock_config']] = E.PY_START | E.PY_RETURN
+      else:
+        # a class-based context manager: the lock state found is the one at __enter__, the state left the one after __exit__
+        C['unlock_enter'] = uc.__enter__.__code__
+        C['unlock_exit'] = uc.__exit__.__code__
+        want[C['unlock_enter']] = E.PY_START
+        want[C['unlock_exit']] = E.PY_START | E.PY_RETURN
       C['finalize'] = gc.finalize.__code__
-      want[C['unlock_config']] = E.PY_START | E.PY_RETURN
       want[C['finalize']] = E.PY_RETURN
     if 'bind' in self.which:
       C['bind_parameter'] = gc.bind_parameter.__code__
@@ -196,6 +205,11 @@ class Online:
             MON.set_local_events(TOOL, fco, E.PY_START)
         if name == 'unlock_config':
           rec['locked'] = self.gin.config_is_locked()
+        if name == 'unlock_enter':
+          self.cm_locked[id(frame.f_locals.get('self'))] = self.gin.config_is_locked()
+          return
+        if name == 'unlock_exit':
+          rec['cm'] = id(frame.f_locals.get('self'))
         if name == 'bind_parameter':
           rec['store'] = {k: dict(v) for k, v in self.gc._CONFIG.items()}
         if name == 'clear_config' and self.which & {'rt', 'rtop'}:
@@ -233,6 +247,12 @@ class Online:
           self.count('scope_exits:%s:%s' % (name, how))
           self.check(now == rec['scopes'], 'online:scope-not-restored:%s:%s' % (name, how),
                      'after %s left by %s the scope stack is %r, at entry it was %r' % (name, how, now, rec['scopes']))
+        if name == 'unlock_exit':
+          if rec['cm'] not in self.cm_locked:
+            self.count('exit_without_entry')
+            return
+          rec['locked'] = self.cm_locked.pop(rec['cm'])
+          name = 'unlock_config'
         if name == 'unlock_config':
           self.count('unlock_exits:%s' % how)
           self.check(self.gin.config_is_locked() == rec['locked'], 'online:unlock-did-not-restore-lock:%s' % how,
